@@ -42,6 +42,7 @@ type Verdict struct {
 	AdjPairs   int
 	Incidental []string
 	Trace      []Event
+	Infra      []string // harness faults: reported as machinery error (exit 2), never as a violation
 }
 
 func (v *Verdict) probe(name string) {
@@ -286,6 +287,10 @@ func RunWorker(o WorkerOpts) *WorkerResult {
 		}
 		for _, s := range v.Incidental {
 			res.Incidental[s]++
+		}
+		if len(v.Infra) > 0 && res.Error == "" {
+			pj, _ := json.Marshal(p)
+			res.Error = "harness fault: " + strings.Join(v.Infra, "; ") + " plan=" + string(pj)
 		}
 		if v.Nontrivial {
 			res.Classes[v.Class+"|"+v.SchedHash]++
